@@ -66,7 +66,7 @@ fn key_template() -> BoxedStrategy<String> {
     let key = proptest::sample::select(c10::DOCUMENTED[..28].to_vec());
     let spec = (
         proptest::option::weighted(0.5, prop_oneof![Just("<"), Just("^"), Just(">")]),
-        proptest::option::weighted(0.7, prop_oneof![6 => 0u32..30, 2 => 30u32..300, 1 => prop_oneof![Just(1000u32), Just(65535)]]),
+        proptest::option::weighted(0.7, prop_oneof![6 => 0u32..30, 2 => 30u32..300, 1 => prop_oneof![Just(1000u32), Just(65535)], 1 => prop_oneof![Just(65536u32), Just(65537), Just(70000)]]),
         any::<bool>(),
         proptest::option::weighted(0.3, "[a-z_]{1,6}(/[a-z_]{1,6})?"),
     );
@@ -91,7 +91,9 @@ fn key_template() -> BoxedStrategy<String> {
         s.push('}');
         s
     });
-    let piece = prop_oneof![4 => ph, 2 => "[a-z \\[\\]/:\t]{0,5}", 1 => Just("\n".to_string()), 1 => Just("{ck}".to_string()), 1 => prop_oneof![Just("{x:y}".to_string()), Just("}".to_string()), Just("{bar:99999}".to_string())]];
+    let piece = prop_oneof![4 => ph, 2 => "[a-z \\[\\]/:\t]{0,5}", 1 => Just("\n".to_string()), 1 => Just("{ck}".to_string()), 1 => prop_oneof![Just("{x:y}".to_string()), Just("}".to_string()), Just("{bar:99999}".to_string())],
+        // a brace that stands for itself (followed by whitespace), with literal text - possibly a TAB - behind it
+        1 => prop_oneof![Just("{ ".to_string()), Just("{pos is".to_string()), Just("{\t".to_string()), Just("{ \"k\":".to_string())]];
     proptest::collection::vec(piece, 0..7).prop_map(|v| v.concat()).boxed()
 }
 
@@ -254,7 +256,7 @@ fn decode_style(u: &mut FuzzInput) -> StyleCase {
             match u.n(7) {
                 0 => t.push_str(&(0..u.n(4)).map(|_| u.pick(&['a', ' ', '[', ']', '/', ':', '\t'])).collect::<String>()),
                 1 => t.push('\n'),
-                2 => t.push_str(u.pick(&["{x:y}", "}", "{bar:99999}", "{ck}"])),
+                2 => t.push_str(u.pick(&["{x:y}", "}", "{bar:99999}", "{ck}", "{ ", "{pos is", "{per_sec:65536}"])),
                 _ => {
                     let key = c10::DOCUMENTED[u.n(27)];
                     t.push('{');
